@@ -449,3 +449,32 @@ Proof.
   - apply pvar_not_sample; exact Hn.
 Qed.
 End P4.
+
+(* ---------- names follow the merged rows ---------- *)
+Lemma ref_names_length k : List.length (ref_names k) = k.
+Proof. unfold ref_names. rewrite map_length, seq_length. reflexivity. Qed.
+
+Lemma order_of_merged_order R s0 rf0 (others:list (setup_spec R)) :
+  order_of R s0 rf0 others = merged_order s0 rf0 (map (fun t : setup_spec R => (snd (fst t), snd t)) others).
+Proof. unfold order_of, merged_order. rewrite map_map. reflexivity. Qed.
+
+Theorem names_follow_rows (nm:nat -> string) (s0 rf0:list nat) (others:list (list nat * list nat)) (row:nat) :
+  let order := merged_order s0 rf0 others in
+  let names := (ref_names (List.length rf0) ++
+                map nm (drop_at s0 rf0 0%nat ++ List.concat (map (fun sr => drop_at (fst sr) (snd sr) 0%nat) others)))%list in
+  flatten_multi (map (fun sr => map nm (fst sr)) ((s0,rf0)::others)) (Some (map snd ((s0,rf0)::others))) = FlatOk names /\
+  List.length names = List.length order /\
+  ((row < List.length rf0)%nat -> nth row names EmptyString = ("REF" ++ nat_str (S row))%string) /\
+  ((List.length rf0 <= row < List.length order)%nat -> nth row names EmptyString = nm (nth row order 0%nat)).
+Proof.
+  intros order names. split; [apply flatten_matches_merge|].
+  assert (Hlen : List.length names = List.length order).
+  { unfold names, order, merged_order. rewrite !app_length, ref_names_length, pick_length, map_length, app_length. reflexivity. }
+  split; [exact Hlen|]. split.
+  - intros Hr. unfold names. rewrite app_nth1 by (rewrite ref_names_length; exact Hr).
+    unfold ref_names. apply (nth_map_seq (fun i => ("REF" ++ nat_str (S i))%string) (List.length rf0) row EmptyString Hr).
+  - intros [Hlo Hhi]. unfold names, order, merged_order in *.
+    rewrite app_nth2 by (rewrite ref_names_length; exact Hlo). rewrite ref_names_length.
+    rewrite (app_nth2 (pick 0%nat s0 rf0)) by (rewrite pick_length; exact Hlo). rewrite pick_length.
+    apply nth_map_in. rewrite app_length, pick_length in Hhi. lia.
+Qed.
